@@ -645,7 +645,7 @@ func (e *Env) concreteTypeOf(b *Binding) types.Type {
 	return t
 }
 
-var boundVarRe = regexp.MustCompile(`_q\d+`)
+var boundVarRe = regexp.MustCompile(`_q\d+|\bpa\d+_|\bd\d+_|\bjk\b|\bjl\b|\bfx\b|\bci\b`)
 
 // noteAllocated records that a reference read from the heap denotes an allocated object of that heap.
 func (e *Env) noteAllocated(v TV) {
